@@ -270,8 +270,10 @@ u_session(uint64_t idx, void *arg)
     vh_unit_rng(&rg, "session", idx);
     for (int s = 0; s < 8; s++) {
         vh_arena_reset();
-        static const size_t bss[] = { 128, 200, 300, 360 };
-        rp_setup(&H, (int)vh_below(&rg, 2), (int)vh_below(&rg, 2), bss[vh_below(&rg, 4)]);
+        static const size_t bss[] = { 128, 200, 300, 360, 129, 255, 131, 361 }; /* even and odd block sizes */
+        rp_setup(&H, (int)vh_below(&rg, 2), (int)vh_below(&rg, 2), bss[vh_below(&rg, 8)]);
+        if (H.blocksize & 1)
+            VH_COUNT("session on an allocator with an odd block size");
         unsigned nframes = 1 + (unsigned)vh_below(&rg, 50);
         uint16_t seq = vh_chance(&rg, 1, 4) ? 0xfffd : (uint16_t)vh_rand(&rg);
         char ctx[80];
@@ -800,6 +802,7 @@ harness_run(void)
     vh_require("non-request frame: no access, no reply");
     vh_require("request with the wrong word size");
     vh_require("noise frame between requests of a session");
+    vh_require("session on an allocator with an odd block size");
     vh_require("request served by a second instance in between");
     vh_require("read with the wrong word size and a block no answer could carry");
     vh_require("frame carrying 65536 or more payload octets");
